@@ -115,7 +115,7 @@ func (x *Exec) freshSlice(name string, elem types.Type) Slice {
 	return s
 }
 
-const maxSliceStr = "4611686018427387904" // 2^62: no slice is larger
+const maxSliceStr = "1152921504606846976" // 2^60: no slice is larger
 
 // freshValue creates an unconstrained value of type t, stored under path in st
 // (struct types are expanded into leaf variables).
